@@ -44,13 +44,14 @@ class Harness:
         self.family = kv.get("_family")
         self.slice = kv.get("_slice")
         self.solver = kv.get("solver", "")
+        self.unwindset = kv.get("unwindset", "")
 
     @property
     def fq(self):
         return "%s::verif::%s" % (self.module, self.name)
 
     def group_key(self):
-        return (self.stub, self.cbmc, self.solver)
+        return (self.stub, self.cbmc, self.solver, self.unwindset)
 
 
 def _select_slices(kv, tier, seed):
@@ -102,7 +103,10 @@ def load(tier, seed, only_prop=None):
                                 kv2["_slice"] = k
                                 hs.append(Harness(mod, nm, kv2, about))
                                 generated.setdefault(mod, "")
-                                generated[mod] += "%s!(%s, %d);\n" % (kv.get("macro", kv["name"]), nm, k)
+                                if "plus" in kv:
+                                    generated[mod] += "%s!(%s, %d, %d);\n" % (kv.get("macro", kv["name"]), nm, k, k + int(kv["plus"]))
+                                else:
+                                    generated[mod] += "%s!(%s, %d);\n" % (kv.get("macro", kv["name"]), nm, k)
                 else:
                     # find fn name
                     name = None
